@@ -10,6 +10,7 @@ import Rooc.Proofs.Cert
 import Rooc.Proofs.WrapMilp
 import Rooc.Proofs.ComposeSimplexExamples
 import Rooc.Proofs.ComposeSemExamples
+import Rooc.Proofs.ComposeTol
 import Rooc.Proofs.RatInst
 import Mathlib.Data.Rat.Floor
 namespace Rooc.Props.C05
@@ -448,6 +449,54 @@ theorem slow_simplex_start_partial {tol : K} (ht : 0 < tol) {lm : LinModel (Ext 
     {T : Tab K} (hT : intoTableau tol stallExtra phase1Limit (stdK s) = .ok T) : CanonicalFor T (stdK s) :=
   intoTableau_canonicalFor ht hW hs stallExtra phase1Limit hfacts hT
 
+/-! ### the REAL tolerance: when do the tolerant decisions coincide with the exact ones?
+
+`ComposeTol.SepT tol T` — every reduced cost and matrix entry of `T` is `0` or `≥ tol` in magnitude (the cost / entry
+clauses of C14's `Bland.Sep`).  On such a tableau one step of the code as it runs (`tol > 0`) IS one step of the exact code
+(`step_tol_eq_exact_partial`); along a run whose visited tableaus are all separated (`ComposeTol.SepAlong`, decidable
+per run) the loop run WITH THE TOLERANCE has exact verdicts (`slow_simplex_tol_verdict_partial`) — no `tol = 0`
+idealisation of the loop is left in that statement.  Integer tableaus are separated for every `tol ≤ 1`
+(`integral_separated`).  `hex : Gen.ratioTestExact = true` is the regenerated fact that the ratio test is exact
+(fix 64d5c0e); it is `rfl` on the current source.
+
+NOT achieved: a SOURCE-side class for which separation of every visited tableau is guaranteed a priori.  Integrality of
+the data is not preserved by the code: `into_tableau` scales a row by its first independent entry (`2x + s = 4` becomes
+`x + s/2 = 2`) and pivots divide by the pivot element, so only totally unimodular systems (every pivot element `±1`) stay
+integral — that theory is not formalised here. -/
+
+/-- **one tolerant step = one exact step on a separated tableau.** -/
+theorem step_tol_eq_exact_partial {tol : K} (ht : 0 < tol) (hex : Gen.ratioTestExact = true) {T : Tab K}
+    (hS : ComposeTol.SepT tol T) (prefer : List Nat) (bland : Bool) :
+    stepInner tol T prefer bland = stepInner (0:K) T prefer bland :=
+  ComposeTol.stepInner_tol_eq_exact ht hex hS prefer bland
+
+/-- a tableau with integer reduced costs and entries is separated for every tolerance `tol ≤ 1`. -/
+theorem integral_separated {tol : K} (htol : tol ≤ 1) {T : Tab K} (h : ComposeTol.Integral T) : ComposeTol.SepT tol T :=
+  ComposeTol.sepT_of_integral htol h
+
+/-- **the verdict of the path with the tolerance the code really uses.**  Well-formed continuous `lm`, standard form `s`,
+whatever tableau `into_tableau tol` returns under `StartFacts`, then the loop `solve tol` — the SAME `tol > 0` — on a run
+whose visited tableaus are separated: `Finished` ⇒ feasible and optimal for `lm`, `optimal_value` = objective;
+`Unbounded` ⇒ `lm` unbounded. -/
+theorem slow_simplex_tol_verdict_partial {tol : K} (ht : 0 < tol) (hex : Gen.ratioTestExact = true)
+    {lm : LinModel (Ext K)} (hW : WF lm) {s : StdModel (Ext K)} (hs : standardize lm = .ok s)
+    (stallExtra phase1Limit : Nat) (hfacts : StartFacts tol stallExtra phase1Limit (stdK s))
+    {T : Tab K} (hT : intoTableau tol stallExtra phase1Limit (stdK s) = .ok T) (limit : Nat) (prefer : List Nat)
+    (hsep : ComposeTol.SepAlong tol prefer (T.c.length + T.a.length + stallExtra) limit T 0 T.value) :
+    ((solve tol stallExtra limit prefer T).result = .ok () →
+      LinFeasible lm (preimage lm (basicSolution (solve tol stallExtra limit prefer T).final)) ∧
+      (∀ x, LinFeasible lm x →
+        (lm.optType = .min →
+          obj lm (preimage lm (basicSolution (solve tol stallExtra limit prefer T).final)) ≤ obj lm x) ∧
+        (lm.optType = .max →
+          obj lm x ≤ obj lm (preimage lm (basicSolution (solve tol stallExtra limit prefer T).final)))) ∧
+      optimalValue (solve tol stallExtra limit prefer T).final =
+        obj lm (preimage lm (basicSolution (solve tol stallExtra limit prefer T).final))) ∧
+    ((solve tol stallExtra limit prefer T).result = .error .unbounded →
+      ∀ M : K, ∃ x, LinFeasible lm x ∧ (lm.optType = .min → obj lm x < M) ∧ (lm.optType = .max → M < obj lm x)) :=
+  ComposeTol.tol_loop_verdict ht hex hW hs (intoTableau_canonicalFor ht hW hs stallExtra phase1Limit hfacts hT)
+    stallExtra limit prefer hsep
+
 /-! ### the built-in simplex honours the solver contract that C03's composition assumes
 
 `Rooc/Proofs/ComposeSem.lean` relates the two readings of a linear model: by NAME (`Sem.linFeasible`,
@@ -528,6 +577,38 @@ example : LinFeasible exMin [2] ∧ ∀ x, LinFeasible exMin x → obj exMin [2]
     exMin_startFacts exMin_intoTableau 10 []).1 exT'_solve.1
   rw [exT'_solve.2, exT'_preimage] at h1 h2
   exact ⟨h1, fun x hx => (h2 x hx).1 rfl⟩
+
+/-- `slow_simplex_tol_verdict_partial` at the tolerance `1e-5` the code uses, start AND loop: for `exMin` the start facts
+hold, the tableau `into_tableau` returns is integral hence separated, the tolerant loop stops `Finished` at once, and the
+theorem yields optimality of `x = 2` — a statement about the run WITH the tolerance. -/
+example : LinFeasible exMin [2] ∧ ∀ x, LinFeasible exMin x → obj exMin [2] ≤ obj exMin x := by
+  have ht : (0:ℚ) < 1/100000 := by norm_num
+  have hint : ComposeTol.Integral exT' := by
+    refine ⟨fun j => ?_, fun i j => ?_⟩
+    · rcases j with _ | _ | j
+      · exact ⟨0, by simp [Props.C14.T0', nth]⟩
+      · exact ⟨1, by simp [Props.C14.T0', nth]⟩
+      · exact ⟨0, by simp [Props.C14.T0', nth]⟩
+    · rcases i with _ | i
+      · rcases j with _ | _ | j
+        · exact ⟨1, by simp [Props.C14.T0', nth, row]⟩
+        · exact ⟨1, by simp [Props.C14.T0', nth, row]⟩
+        · exact ⟨0, by simp [Props.C14.T0', nth, row]⟩
+      · exact ⟨0, by simp [Props.C14.T0', nth, row]⟩
+  have hS : ComposeTol.SepT (1/100000 : ℚ) exT' := integral_separated (by norm_num) hint
+  have hstep : stepInner (1/100000 : ℚ) exT' [] false = .ok (.finished, exT') := by
+    rw [step_tol_eq_exact_partial ht rfl hS]; exact exT'_step
+  have h1 : decide (0 > (Props.C14.T0'.c.length + Props.C14.T0'.a.length + 1)) = false := by decide
+  have hsolve : (solve (1/100000 : ℚ) 1 10 [] exT').result = .ok () ∧ (solve (1/100000 : ℚ) 1 10 [] exT').final = exT' := by
+    simp only [Tableau.solve, Tableau.solveLoop, h1, hstep, and_self]
+  have hsep : ComposeTol.SepAlong (1/100000 : ℚ) [] (exT'.c.length + exT'.a.length + 1) 10 exT' 0 exT'.value := by
+    refine ⟨hS, ?_⟩
+    have h1' : decide (0 > (exT'.c.length + exT'.a.length + 1)) = false := by decide
+    simp only [h1', hstep]
+  obtain ⟨h1', h2', _⟩ := (slow_simplex_tol_verdict_partial ht rfl exMin_wf exMin_std 1 10 exMin_startFacts
+    exMin_intoTableau 10 [] hsep).1 hsolve.1
+  rw [hsolve.2, exT'_preimage] at h1' h2'
+  exact ⟨h1', fun x hx => (h2' x hx).1 rfl⟩
 
 /-- the hypotheses of `slow_simplex_infeasible_exact` are satisfiable (`min x s.t. x ≤ −1, x ≥ 0`: the phase-1 tableau
 is optimal at once, at value `−1`), and it applies. -/
